@@ -241,7 +241,7 @@ def st_shared_history(draw):
     steps = []
     n_bare = draw(st.integers(1, 2))
     for _ in range(draw(st.integers(2, 6))):
-        kind = draw(st.sampled_from(["dec", "dec", "cls", "cls", "redec", "reuse", "adopt", "posthoc", "partial"]))
+        kind = draw(st.sampled_from(["dec", "dec", "cls", "cls", "redec", "reuse", "adopt", "posthoc", "partial", "inv"]))
         if kind == "dec":
             steps.append(["dec", draw(st.integers(0, n_bare - 1)), draw(st.sampled_from(["require", "ensure"]))])
         elif kind == "redec":
@@ -249,6 +249,10 @@ def st_shared_history(draw):
         elif kind == "posthoc":
             # a contract is put on the overriding method of an EXISTING sub-class: Sub.m = require|ensure(c)(Sub.m)
             steps.append(["posthoc", draw(st.integers(0, 5)), draw(st.sampled_from(["require", "ensure"]))])
+        elif kind == "inv":
+            # a further invariant is put on an EXISTING root class (call form); roots 1 and 2 carry one from the start, so
+            # that their sub-classes own merged invariant lists
+            steps.append(["inv", draw(st.integers(1, 2))])
         elif kind == "partial":
             # a NEW callable derived with functools.partial from an existing wrapper / a root's method gets a contract
             steps.append(["partial", draw(st.integers(0, 5)), draw(st.sampled_from(["require", "ensure"])),
@@ -339,6 +343,14 @@ def _check_shared_history(ctx, case):
             out[name] = res
         return out
 
+    def mk_inv(cid):
+        def cond(self):
+            LOG.append(cid)
+            return T[cid]
+        return cond
+
+    with_inv = {}  # root -> cids of its invariants (roots 1 and 2 are born with one)
+
     def make_root(rr):
         cp, cq = new_cid(), new_cid()
 
@@ -349,10 +361,16 @@ def _check_shared_history(ctx, case):
                 LOG.append("root-body")
                 return -1
         Root.__name__ = "Root%d" % rr
-        roots[rr] = (Root, {cp, cq}, (cp, cq))
+        rc = {cp, cq}
+        if rr >= 1:
+            ci = new_cid()
+            Root = icontract.invariant(mk_inv(ci), error=_Viol(ci))(Root)
+            rc.add(ci)
+            with_inv[rr] = [ci]
+        roots[rr] = (Root, rc, (cp, cq))
         objs["Root%d" % rr] = (lambda K: lambda x: K().m(x))(Root)
-        own["Root%d" % rr] = {cp, cq}
-        expect["Root%d" % rr] = [cp, "root-body", cq]
+        own["Root%d" % rr] = set(rc)
+        expect["Root%d" % rr] = [cp, "root-body", cq] if rr not in with_inv else None
         for nme, v in probe_all().items():
             base.setdefault(nme, v)
 
@@ -408,6 +426,25 @@ def _check_shared_history(ctx, case):
             expect[sub] = None
             subs.pop(sub)  # one post-hoc decoration per class
             feats.add("contract-added-to-a-method-of-an-existing-sub-class")
+        elif st_[0] == "inv":
+            r = st_[1]
+            if r not in roots:
+                make_root(r)
+            Root, rc, cpq = roots[r]
+            cj = new_cid()
+            icontract.invariant(mk_inv(cj), error=_Viol(cj))(Root)
+            roots[r] = (Root, rc | {cj}, cpq)  # classes defined from now on inherit it; the existing ones do not change
+            with_inv[r].append(cj)
+            own["Root%d" % r] = own["Root%d" % r] | {cj}
+            base.pop("Root%d" % r, None)
+            expect["Root%d" % r] = None
+            # what hangs on Root.m itself (partials of it) legitimately follows
+            for nme in list(objs):
+                if nme.startswith("h") and getattr(objs[nme], "_src", None) == "Root%d" % r:
+                    own[nme] = own[nme] | {cj}
+                    base.pop(nme, None)
+                    expect[nme] = None
+            feats.add("invariant-added-to-an-existing-base-class")
         elif st_[0] == "partial":
             import functools
 
@@ -431,6 +468,7 @@ def _check_shared_history(ctx, case):
             h = deco(part)
             name = "h%d" % si
             objs[name] = (lambda h: lambda x: h(x))(h)
+            objs[name]._src = src
             own[name] = own[src] | {cid}
             expect[name] = None if expect.get(src) is None else (
                 [cid] + expect[src] if role == "require" else expect[src] + [cid])
@@ -449,7 +487,7 @@ def _check_shared_history(ctx, case):
             sub = "Sub%d" % si
             objs[sub] = (lambda K: lambda x: K().m(x))(Sub)
             own[sub] = set(rc) | {gcid}
-            expect[sub] = [cp, "body%d" % k, cq] + ([gcid] if role == "ensure" else [])
+            expect[sub] = ([cp, "body%d" % k, cq] + ([gcid] if role == "ensure" else [])) if r not in with_inv else None
             # the function object itself now carries the inherited contracts as well (it IS Sub.m)
             own[name] = own[name] | set(rc)
             base.pop(name, None)
@@ -477,8 +515,9 @@ def _check_shared_history(ctx, case):
                 feats.add("base-method-re-used-as-is")
             Sub = type(Root)("Sub%d" % si, bases_, ns)
             objs["Sub%d" % si] = (lambda K: lambda x: K().m(x))(Sub)
-            own["Sub%d" % si] = set(rc)
-            expect["Sub%d" % si] = exp
+            # (the invariants of every base belong to the class, whoever provides the method)
+            own["Sub%d" % si] = set(rc) | set(with_inv.get(r2, []) if r2 is not None else [])
+            expect["Sub%d" % si] = exp if not (r in with_inv or r2 in with_inv) else None
             if k >= 0 and r2 is None:
                 subs["Sub%d" % si] = Sub  # own function, one inherited group: may be decorated later on
             if k >= 0 and sum(1 for s in steps[:si + 1] if s[0] == "cls" and s[2] == k) >= 2:
